@@ -441,7 +441,7 @@ def build_unit(repo: str, template: str, out_path: str):
             src = open(os.path.join(repo, payload["file"]), encoding="utf-8").read()
             ok_ty = re.compile(r"^(usize|u64|u32|u16|u8|i64|i32|bool|&\[u8\]|Vec<u8>|&str|String)$")
             n = 0
-            for m in re.finditer(r"^fn\s+([a-z_0-9]+)\(([^)]*)\)\s*->\s*%s\s*\{" % re.escape(payload["ret"]), src, re.M | re.S):
+            for m in re.finditer(r"^(?:pub(?:\(crate\))?\s+)?fn\s+([a-z_0-9]+)\(([^)]*)\)\s*->\s*%s\s*\{" % re.escape(payload["ret"]), src, re.M | re.S):
                 name, params = m.group(1), m.group(2)
                 if name in provided:
                     continue
